@@ -126,3 +126,101 @@ def gen_inventory():
 
 
 GENERATORS.append(("inventory_tables", gen_inventory))
+
+
+# ---------------------------------------------------------------- C10: who closes / cancels what (AST facts)
+def ledger_facts():
+    """Boolean facts about the clean-up code, read from the AST (fail-closed on a missing function)."""
+    import ast
+    import os
+
+    def method(path, cls, name):
+        tree = ast.parse(open(os.path.join(vf.SRC, "geckolib", path)).read())
+        for c in tree.body:
+            if isinstance(c, ast.ClassDef) and c.name == cls:
+                for f in c.body:
+                    if isinstance(f, (ast.FunctionDef, ast.AsyncFunctionDef)) and f.name == name:
+                        return f
+        raise RuntimeError("no %s.%s in %s" % (cls, name, path))
+
+    def stmts(node):
+        return [ast.unparse(x).strip() for x in ast.walk(node) if isinstance(x, ast.stmt)]
+    dis = method("async_spa.py", "GeckoAsyncSpa", "disconnect")
+    facts = {}
+    ds = stmts(dis)
+    facts["disconnect_closes_transport"] = "self._transport.close()" in ds
+    facts["disconnect_cancels_spa_tasks"] = "self._taskman.cancel_key_tasks('SPA')" in ds
+    facts["disconnect_unwatches"] = "self.unwatch_all()" in ds
+    disc = method("async_locator.py", "GeckoAsyncLocator", "discover")
+    fin = [t for t in ast.walk(disc) if isinstance(t, ast.Try) and t.finalbody]
+    fs = [ast.unparse(x).strip() for t in fin for y in t.finalbody for x in ast.walk(y) if isinstance(x, ast.stmt)]
+    facts["discover_cleans_up_in_finally"] = "self._transport.close()" in fs and "self._task_man.cancel_key_tasks('LOC')" in fs
+    facts["discover_cleans_up_on_return"] = "self._transport.close()" in stmts(disc) and "self._task_man.cancel_key_tasks('LOC')" in stmts(disc)
+    ex = method("async_spa_manager.py", "GeckoAsyncSpaMan", "__aexit__")
+    es = stmts(ex)
+    facts["exit_resets"] = "await self.async_reset()" in es
+    facts["exit_gathers"] = "await AsyncTasks.__aexit__(self, exc_info)" in es and "self.cancel_key_tasks('SPAMAN')" in es
+    fd = method(os.path.join("automation", "async_facade.py"), "GeckoAsyncFacade", "disconnect")
+    facts["facade_disconnect_cancels_tasks"] = "self._taskman.cancel_key_tasks('FACADE')" in stmts(fd)
+    ar = stmts(method("async_spa_manager.py", "GeckoAsyncSpaMan", "async_reset"))
+    facts["reset_disconnects_facade_and_spa"] = "await self._facade.disconnect()" in ar and "await self._spa.disconnect()" in ar
+    return facts
+
+
+def gen_ledger():
+    import os
+    f = ledger_facts()
+    t = "(* GENERATED from /repo (async_spa.py, async_locator.py, async_spa_manager.py, automation/async_facade.py ASTs) by tools/gen_misc.py - do not edit *)\n"
+    for k in sorted(f):
+        t += "Definition %s : bool := %s.\n" % (k, vf.cbool(f[k]))
+    vf.write_if_changed(os.path.join(vf.GEN, "LedgerFacts.v"), t)
+    return f
+
+
+GENERATORS.append(("ledger_facts", gen_ledger))
+
+
+# ---------------------------------------------------------------- C07: the unhandled consumer's patience
+def unhandled_patience():
+    """number of polling intervals the unhandled consumer waits, mark still set, before it discards the head (fail-closed)"""
+    import ast
+    import os
+    tree = ast.parse(open(os.path.join(vf.SRC, "geckolib", "driver", "protocol", "unhandled.py")).read())
+    fn = [f for c in tree.body if isinstance(c, ast.ClassDef) for f in c.body if isinstance(f, ast.AsyncFunctionDef) and f.name == "consume"]
+    if len(fn) != 1:
+        raise RuntimeError("unhandled consume not found")
+    loop = fn[0].body[0]
+    if not (isinstance(loop, ast.While) and ast.unparse(loop.test) == "True" and len(loop.body) == 2):
+        raise RuntimeError("unhandled consume: loop shape")
+    sleep = "await asyncio.sleep(GeckoConstants.ASYNCIO_SLEEP_TIMEOUT_FOR_YIELD)"
+    iff, tail = loop.body
+    if ast.unparse(tail).strip() != sleep or not (isinstance(iff, ast.If) and ast.unparse(iff.test) == "protocol.queue.head is not None" and not iff.orelse):
+        raise RuntimeError("unhandled consume: body shape")
+    b = iff.body
+    if ast.unparse(b[0]).strip() != "protocol.queue.mark()":
+        raise RuntimeError("unhandled consume: mark first")
+    pop = b[-1]
+    if not (isinstance(pop, ast.If) and ast.unparse(pop.test) == "protocol.queue.is_marked" and "protocol.queue.pop()" in ast.unparse(pop)):
+        raise RuntimeError("unhandled consume: pop under is_marked")
+    mid = b[1:-1]
+    if len(mid) == 1 and ast.unparse(mid[0]).strip() == sleep:
+        return 1
+    if len(mid) == 1 and isinstance(mid[0], ast.For) and isinstance(mid[0].iter, ast.Call) and ast.unparse(mid[0].iter.func) == "range" \
+            and len(mid[0].iter.args) == 1 and isinstance(mid[0].iter.args[0], ast.Constant) and isinstance(mid[0].iter.args[0].value, int):
+        fb = [ast.unparse(x).strip() for x in mid[0].body]
+        if fb == [sleep, "if not protocol.queue.is_marked:\n    break"] and mid[0].iter.args[0].value >= 1:
+            return mid[0].iter.args[0].value
+    raise RuntimeError("unhandled consume: unknown waiting shape")
+
+
+def gen_dispatch_facts():
+    import os
+    n = unhandled_patience()
+    t = "(* GENERATED from /repo (driver/protocol/unhandled.py AST) by tools/gen_misc.py - do not edit *)\n"
+    t += "(* polling intervals the unhandled consumer sleeps, mark still set, before it discards the head *)\n"
+    t += "Definition unhandled_patience : nat := %d.\n" % n
+    vf.write_if_changed(os.path.join(vf.GEN, "DispatchFacts.v"), t)
+    return n
+
+
+GENERATORS.append(("dispatch_facts", gen_dispatch_facts))
